@@ -182,7 +182,9 @@ func c15RenderItems(items []protocol.CompletionItem) []string {
 }
 
 func VerifC15Rank() {
-	labels := []string{"ex:food", "ex:fuel", "as:food"}
+	// names that differ in more than case, or in case only (a case-insensitive tie-break is
+	// not a total order on the second set)
+	labels := [][]string{{"ex:food", "ex:fuel", "as:food"}, {"ex:Food", "ex:food", "Ex:food"}}[zzverif.Choice("names", 2)]
 	n := 2 + zzverif.Choice("n", 2)
 	labels = labels[:n]
 	counts := map[string]int{}
